@@ -1334,13 +1334,12 @@ Section AddrProofs.
     nth_error (slice_pairs offs) i = Some (d, len) -> 0 < nc ->
     exists R1 Rd R2,
       t_ranges t = R1 ++ Rd ++ R2 /\ (forall r, In r Rd -> r_depth r = d) /\ (forall r, In r (R1 ++ R2) -> r_depth r <> d) /\
-      forall (buffered : bool) (w_addr : Z),
+      forall (buffered : bool) (w_addr bsz : Z), group_size (t_ranges t) d <= bsz ->
         let base := if buffered then w_addr - total_ext R1 else w_addr in
         let ws := map (fun r => (base + r_offset r + r_weight_offset r, r_weight_bytes r)) Rd in
         let bs := map (fun r => (base + r_offset r, r_weight_offset r)) Rd in
         create_weights nc (t_ranges t) d buffered w_addr None = Some (ws, bs) /\
-        Forall (in_window w_addr (w_addr + (if buffered then db_get (t_db t) (Z.of_nat i) else zlen (t_buffer t))) w_addr)
-               (ws ++ bs).
+        Forall (in_window w_addr (w_addr + (if buffered then bsz else zlen (t_buffer t))) w_addr) (ws ++ bs).
   Proof.
     intros E Edw SI Hp Hnc.
     destruct (slice_ranges enc nc n bd do_w biases qs offs t i d len E SI Hp) as (R1 & Rd & R2 & HR & Fd & Hother & W & C & L & Hg & Hdb).
@@ -1361,7 +1360,7 @@ Section AddrProofs.
     { rewrite L, HR, !total_ext_app. lia. }
     assert (Wm : Forall (fun r => r_weight_bytes r mod 16 = 0) Rd).
     { eapply Forall_impl; [|exact Wd]. intros r (_ & _ & _ & _ & _ & M & _). exact M. }
-    intros buffered w_addr base ws bs. split.
+    intros buffered w_addr bsz Hbsz base ws bs. rewrite Hg in Hbsz. split.
     - unfold create_weights. rewrite HR.
       rewrite (cw_loop_expect d (member (active_cores nc n bd)) buffered w_addr None (zseq 0 nc) R1 Rd R2 0).
       + assert (Hform : cw_expect d Rd buffered w_addr None 0 = cw_expect d Rd false base None 0).
@@ -1380,11 +1379,29 @@ Section AddrProofs.
                 r_weight_offset r = round_up (r_scale_bytes r) 16 /\ 0 <= r_scale_bytes r /\ 0 <= r_weight_bytes r).
       { intros r Hr. destruct (chain_upper _ _ _ Cd Wed r Hr) as [A B].
         rewrite Forall_forall in Wd. destruct (Wd r Hr) as (_ & M & _ & S0 & W0 & _ & _ & X). rewrite Edw in X. tauto. }
-      assert (Hwin : (if buffered then db_get (t_db t) (Z.of_nat i) else zlen (t_buffer t)) >=
+      assert (Hwin : (if buffered then bsz else zlen (t_buffer t)) >=
                      (if buffered then total_ext Rd else total_ext R1 + total_ext Rd)) by (destruct buffered; lia).
       split; intros r Hr; destruct (Hin r Hr) as (A & B & M & X & S0 & W0); unfold in_window, ext in *; cbn [fst snd];
         pose proof (round_up_16_bounds (r_scale_bytes r)); pose proof (round_up_16_mod (r_scale_bytes r));
         subst base; destruct buffered; repeat split; try lia; rewrite ?X; Z.div_mod_to_equations; lia.
+  Qed.
+
+  (* the size the scheduler gives a SINGLE weight buffer, min(len(buffer), max(double_buffer_sizes)), bounds every slice
+     (a double buffer of parity i mod 2 has double_buffer_sizes[i mod 2], which bounds the slices of that parity) *)
+  Theorem single_buffer_bounds_lemma offs t i d len :
+    encode_layout enc nc n bd do_w biases qs offs = Some t -> strictly_increasing offs ->
+    nth_error (slice_pairs offs) i = Some (d, len) ->
+    group_size (t_ranges t) d <= single_buffer_size (zlen (t_buffer t)) (t_db t).
+  Proof.
+    intros E SI Hp.
+    destruct (slice_ranges enc nc n bd do_w biases qs offs t i d len E SI Hp) as (R1 & Rd & R2 & HR & _ & _ & W & _ & L & Hg & Hdb).
+    assert (Wext : Forall (fun r => 0 <= ext r) (t_ranges t)).
+    { eapply Forall_impl; [|exact W]. intros r (_ & _ & _ & A & B & _). unfold ext.
+      pose proof (round_up_16_bounds (r_scale_bytes r)). lia. }
+    rewrite HR in Wext. apply Forall_app in Wext. destruct Wext as [We1 We']. apply Forall_app in We'. destruct We' as [_ We2].
+    pose proof (total_ext_nonneg _ We1). pose proof (total_ext_nonneg _ We2).
+    rewrite Hg, L, HR, !total_ext_app. unfold single_buffer_size, max_range_bytes, db_get in *.
+    destruct (Z.of_nat i mod 2 =? 0); lia.
   Qed.
 End AddrProofs.
 
@@ -1812,25 +1829,52 @@ Definition q_blockdepth : request := set_wp q0 (mkWP 1 24 16 [0; 16] 1 1 1 8 0 f
 Definition q_qscales' : request :=
   mkQ (q_wp q0) 100 200 1 2 (q_biases q0) (repeat (1073741825, 30) 16).
 
+(* inputs that the key still omits (after 845322f): accelerator, core count, weight content behind a value id, unclipped
+   block depth; and (scale key) the quantised scales *)
 Lemma key_omits_lemma :
   Forall (fun q => wkey_of q = wkey_of q0 /\ skey_of q = skey_of q0 /\ q <> q0)
-         [q_bits; q_accel; q_cores; q_flip; q_content; q_blockdepth; q_qscales'].
+         [q_accel; q_cores; q_content; q_blockdepth; q_qscales'].
 Proof.
   repeat constructor; try reflexivity; intro H; inversion H.
 Qed.
 
-(* a codec whose output depends on the IFM bit depth (as the real one does): a request history with equal keys in
-   which the second response is not what a fresh encoding returns *)
-Definition bits_codec (w : wparams) (_ _ _ _ : Z) : list Z := repeat (wp_ifm_bits w) 16.
+(* the IFM bit depth and the transpose-convolution flip are in the key now; the old key function omitted them *)
+Lemma key_contains_lemma :
+  wkey_of q_bits <> wkey_of q0 /\ wkey_of q_flip <> wkey_of q0 /\
+  wkey_of_old q_bits = wkey_of_old q0 /\ wkey_of_old q_flip = wkey_of_old q0.
+Proof. repeat split; try reflexivity; intro H; inversion H. Qed.
+
+(* a codec whose output depends on the accelerator (as the real one does through the micro-block depths): a request
+   history with equal keys in which the second response is not what a fresh encoding returns.  On the implementation
+   this history needs two architectures in one process, which the compiler never has (one per compilation, caches
+   cleared at the start of each): replayed at function level only *)
+Definition accel_codec (w : wparams) (_ _ _ _ : Z) : list Z := repeat (wp_accel w) 16.
 
 Lemma cache_reuse_refuted_lemma :
   exists (codec : wparams -> Z -> Z -> Z -> Z -> list Z) (h : list request) resps,
     (forall w c d l b, zlen (codec w c d l b) mod 16 = 0) /\ Forall wf_request h /\
-    run codec [] h = Some resps /\
+    run codec wkey_of [] h = Some resps /\
+    ~ Forall2 (fun q r => exists tf, fresh codec q = Some tf /\ effective r = effective tf) h resps.
+Proof.
+  exists accel_codec, [q0; q_accel].
+  destruct (run accel_codec wkey_of [] [q0; q_accel]) as [resps|] eqn:E; [|vm_compute in E; discriminate].
+  exists resps. split; [intros; reflexivity|]. split; [repeat constructor; vm_compute; lia|]. split; [reflexivity|].
+  intro F. vm_compute in E. inversion E. subst resps. clear E.
+  inversion F as [|? ? ? ? _ F1]; subst. inversion F1 as [|? ? ? ? H2 _]; subst.
+  destruct H2 as (tf & Ef & H2). vm_compute in Ef. inversion Ef. subst tf. vm_compute in H2. discriminate.
+Qed.
+
+(* the refutation that motivated 845322f, about the OLD key function: a codec that depends on the IFM bit depth *)
+Definition bits_codec (w : wparams) (_ _ _ _ : Z) : list Z := repeat (wp_ifm_bits w) 16.
+
+Lemma cache_reuse_old_key_refuted_lemma :
+  exists (codec : wparams -> Z -> Z -> Z -> Z -> list Z) (h : list request) resps,
+    (forall w c d l b, zlen (codec w c d l b) mod 16 = 0) /\ Forall wf_request h /\
+    run codec wkey_of_old [] h = Some resps /\
     ~ Forall2 (fun q r => exists tf, fresh codec q = Some tf /\ effective r = effective tf) h resps.
 Proof.
   exists bits_codec, [q0; q_bits].
-  destruct (run bits_codec [] [q0; q_bits]) as [resps|] eqn:E; [|vm_compute in E; discriminate].
+  destruct (run bits_codec wkey_of_old [] [q0; q_bits]) as [resps|] eqn:E; [|vm_compute in E; discriminate].
   exists resps. split; [intros; reflexivity|]. split; [repeat constructor; vm_compute; lia|]. split; [reflexivity|].
   intro F. vm_compute in E. inversion E. subst resps. clear E.
   inversion F as [|? ? ? ? _ F1]; subst. inversion F1 as [|? ? ? ? H2 _]; subst.
@@ -1869,22 +1913,28 @@ Definition q_other_scales : request :=
 
 (* a history with a miss, a full hit and a hit that re-encodes the scales only, satisfying key_determines_inputs *)
 Example cache_history_example :
-  key_determines_inputs [q0; q0; q_other_scales] /\ Forall wf_request [q0; q0; q_other_scales] /\
-  exists r ts, run bits_codec [] [q0; q0; q_other_scales] = Some [(r, None); (r, None); (r, Some ts)].
+  key_determines_inputs wkey_of [q0; q0; q_other_scales; q_bits; q_flip] /\
+  Forall wf_request [q0; q0; q_other_scales; q_bits; q_flip] /\
+  exists r ts r8 rf, run bits_codec wkey_of [] [q0; q0; q_other_scales; q_bits; q_flip] =
+                     Some [(r, None); (r, None); (r, Some ts); (r8, None); (rf, None)] /\
+                     fresh bits_codec q_bits = Some (r8, None) /\ fresh bits_codec q_flip = Some (rf, None).
 Proof.
   split.
   { intros a b Ha Hb Hk. cbn [In] in Ha, Hb.
-    destruct Ha as [<-|[<-|[<-|[]]]]; destruct Hb as [<-|[<-|[<-|[]]]]; (split; [reflexivity|]); intro Hs;
+    destruct Ha as [<-|[<-|[<-|[<-|[<-|[]]]]]]; destruct Hb as [<-|[<-|[<-|[<-|[<-|[]]]]]];
+      try (vm_compute in Hk; discriminate); (split; [reflexivity|]); intro Hs;
       try (split; reflexivity); vm_compute in Hs; discriminate. }
   split; [repeat constructor; vm_compute; lia|].
-  eexists. eexists. vm_compute. reflexivity.
+  do 4 eexists. vm_compute. repeat split.
 Qed.
 
 (* double_buffer_sizes[0] bounds the even slices only: a consumer that puts every slice into ONE buffer of that size
-   (scheduler.propose_weight_buffering with TensorSubPurpose.Standard; buffer index = slice index mod 1) is not covered *)
+   (scheduler.propose_weight_buffering with TensorSubPurpose.Standard before repo commit 375f89a) is not covered; the
+   size used since then, single_buffer_size, is (single_buffer_bounds_lemma) *)
 Definition uneven_enc (c d l b : Z) : list Z := repeat 0 (if d =? 16 then 64%nat else 16%nat).
 Lemma single_buffer_refuted_lemma :
   exists t, encode_layout uneven_enc 1 48 16 true (repeat 0 48) (repeat (1, 0) 48) [0; 16; 32; 48] = Some t /\
             strictly_increasing [0; 16; 32; 48] /\
-            db_get (t_db t) 0 < group_size (t_ranges t) 16 /\ group_size (t_ranges t) 16 <= db_get (t_db t) 1.
+            db_get (t_db t) 0 < group_size (t_ranges t) 16 /\ group_size (t_ranges t) 16 <= db_get (t_db t) 1 /\
+            group_size (t_ranges t) 16 <= single_buffer_size (zlen (t_buffer t)) (t_db t).
 Proof. eexists. split; [vm_compute; reflexivity|]. vm_compute. repeat split; discriminate. Qed.
